@@ -5,8 +5,12 @@
    group and a minimisation objective satisfies sbml_ok) and the statements the faithful model refutes
    outside the findings known before this file was written (docs/C10.md):
      - numbers that need more than 15 significant digits are changed by the trip   (sbml_numbers_refuted)
-     - a group with a gene among its members is written but cannot be read          (sbml_group_gene_member_refuted)
      - the written document can contain one SId twice                               (sbml_duplicate_sid_refuted)
+     - a gene that is written like one of the groups (both prefixes are G_) is lost as a group member
+                                                                                    (need_gene_member_not_group_sid)
+   A group with a gene among its members could not be read at all before /repo ed33fe7
+   (fixes/io-sbml-group-gene-member.patch); with the repaired reader it is inside sbml_ok
+   (sbml_group_gene_member_ok; need_reader_knows_genes keeps the old behaviour as the table flag's meaning).
    Each was replayed on the real code (harness corpus: corpus/C10/*.json). *)
 From Coq Require Import ZArith QArith List Bool String.
 From Cobra.GPR Require Syntax.
@@ -98,7 +102,7 @@ Proof. vm_compute. split; reflexivity. Qed.
    reader that starts from Reaction(rid) a lower bound above the default upper bound cannot be read *)
 Definition narrow_env : senv :=
   mkEnv sb_prefix_gene sb_prefix_specie sb_prefix_reaction sb_prefix_group sb_dot
-        sb_lower_bound_id sb_upper_bound_id sb_zero_bound_id sb_minus_inf_id sb_plus_inf_id false.
+        sb_lower_bound_id sb_upper_bound_id sb_zero_bound_id sb_minus_inf_id sb_plus_inf_id false sb_sidmap_genes.
 Example need_lb_below_default_ub :
   let m := model mets_ab [(rxn "R1" st_ab (Fin (1500 # 1)) (Fin (2000 # 1)) 1, None)] [] [] in
   sbml_ok to_dec wnum15 cur_clean narrow_env cfg0 m = false /\
@@ -172,6 +176,31 @@ Example need_group_members_known :  (* the idRef is not in the reader's sid_map 
   let m := model mets_ab [r1] [] [grp "g" [(2, S "R9")]] in OKB cfg0 m = false /\ RT cfg0 m = Err EKey.
 Proof. vm_compute. split; reflexivity. Qed.
 
+Definition rg1 : arxn * Syntax.rule := (rxn "R1" st_ab (Fin 0) (Fin (1000 # 1)) 1, Some (G "x")).
+
+Example need_gene_member_not_group_sid :  (* gene x and group x are both written G_x: the idRef resolves to the group *)
+  let m := model mets_ab [rg1] [gene "x" "n"] [grp "x" [(2, S "R1")]; grp "k" [(0, S "x")]] in
+  OKB cfg0 m = false /\ RT cfg0 m <> Ok (NORM m) /\
+  (* with another id for the group the same model is inside *)
+  (if sb_sidmap_genes then OKB cfg0 (model mets_ab [rg1] [gene "x" "n"] [grp "x2" [(2, S "R1")]; grp "k" [(0, S "x")]])
+   else true) = true.
+Proof. nec. Qed.
+
+Example need_gene_member_known :
+  let m := model mets_ab [rg1] [gene "x" "n"] [grp "k" [(0, S "zz")]] in OKB cfg0 m = false /\ RT cfg0 m = Err EKey.
+Proof. vm_compute. split; reflexivity. Qed.
+
+(* fixed in /repo by ed33fe7: a reader whose sid_map has no gene products cannot resolve a gene member *)
+Definition no_genes_env : senv :=
+  mkEnv sb_prefix_gene sb_prefix_specie sb_prefix_reaction sb_prefix_group sb_dot
+        sb_lower_bound_id sb_upper_bound_id sb_zero_bound_id sb_minus_inf_id sb_plus_inf_id sb_reader_wide_default false.
+Example need_reader_knows_genes :
+  let m := model mets_ab [rg1] [gene "x" "n"] [grp "k" [(0, S "x"); (2, S "R1")]] in
+  sbml_ok to_dec wnum15 cur_clean no_genes_env cfg0 m = false /\
+  roundtrip to_dec parse_dec wnum15 cur_clean no_genes_env cfg0 m = Err EKey /\
+  (if sb_sidmap_genes then OKB cfg0 m else negb (OKB cfg0 m)) = true.
+Proof. vm_compute. repeat split; reflexivity. Qed.
+
 (* ------------------------------------------------------------------ non-vacuity *)
 Definition witness : smodel :=
   mkSModel (Some (S "iTest")) (Some (S "a model"))
@@ -187,7 +216,7 @@ Definition witness : smodel :=
     [gene "b0001" "thrL"; gene "s0001.1" "spontaneous"; gene "YAL-1" "y"]
     [(S "c", S "cytosol"); (S "unused", S "nobody lives here")]
     false
-    [mkGroup (S "grp 1") (S "Transport, extracellular") KPartonomy [(1, S "glc__D_e"); (2, S "EX_glc(e)"); (2, S "r-2")]].
+    [mkGroup (S "grp 1") (S "Transport, extracellular") KPartonomy [(0, S "s0001.1"); (1, S "glc__D_e"); (2, S "EX_glc(e)"); (2, S "r-2")]].
 
 Example sbml_ok_witness :
   OKB cfg0 witness = true /\ RT cfg0 witness = Ok (NORM witness) /\
@@ -208,19 +237,14 @@ Proof.
   split; [vm_compute; discriminate|]. eexists. split; [vm_compute; reflexivity|]. split; reflexivity.
 Qed.
 
-(* "same groups": FALSE when a gene is a member -- the writer emits the member, the reader's id map has
-   compartments, species, reactions and groups only: KeyError *)
-Theorem sbml_group_gene_member_refuted :
-  exists c m, RT c m = Err EKey /\
-    (* with the gene taken out of the group the same model is inside sbml_ok *)
-    OKB c (mkSModel (sm_id m) (sm_name m) (sm_mets m) (sm_rxns m) (sm_genes m) (sm_comps m) (sm_max m)
-                    (map (fun g => mkGroup (gr_id g) (gr_name g) (gr_kind g)
-                                           (filter (fun p => negb (fst p =? 0)) (gr_members g))) (sm_groups m))) = true.
-Proof.
-  exists cfg0, (model mets_ab [(rxn "R1" st_ab (Fin 0) (Fin (1000 # 1)) 1, Some (G "g1"))] [gene "g1" "n"]
-                      [grp "g" [(0, S "g1"); (2, S "R1")]]).
-  vm_compute. split; reflexivity.
-Qed.
+(* genes as group members (refuted before /repo ed33fe7, see need_reader_knows_genes): with the repaired reader
+   the model is inside sbml_ok and comes back as norm m *)
+Example sbml_group_gene_member_ok :
+  let m := model mets_ab [(rxn "R1" st_ab (Fin 0) (Fin (1000 # 1)) 1, Some (G "g1"))] [gene "g1" "n"]
+                 [grp "g" [(0, S "g1"); (2, S "R1")]] in
+  (if sb_sidmap_genes then OKB cfg0 m else negb (OKB cfg0 m)) = true /\
+  (if sb_sidmap_genes then rres_eqb (RT cfg0 m) (Ok (NORM m)) else true) = true.
+Proof. vm_compute. split; reflexivity. Qed.
 
 (* "a document libsbml validates": the written document can contain the same SId twice -- a reaction whose id is
    another reaction's id followed by _lower_bound / _upper_bound collides with that reaction's own bound
